@@ -102,7 +102,8 @@ def mg_configs(tier):
         add("1D-k2-L3", (2,), 3, (2,), ("inf",), ("all", "one"))
         add("2D-2x1-L2", (2, 1), 2, (2,), ("inf",), ("all", "one"))
     else:
-        add("1D-k3-L2", (3,), 2, (1, 2, 3), ("inf", 1, 2), ("all", "one", "none"))
+        # (levels 0..2 only: disparity 2 is the same as inf for this row)
+        add("1D-k3-L2", (3,), 2, (1, 2, 3), ("inf", 1), ("all", "one", "none"))
         add("1D-k2-L3", (2,), 3, (1, 2, 3), ("inf", 1, 2), ("all", "one", "none"))
         add("2D-2x1-L2", (2, 1), 2, (2,), ("inf", 1), ("all", "one", "none"))
     return out
